@@ -114,7 +114,8 @@ def expr_src(e):
             inner += ","
         return "(%s)" % inner, PREC["primary"]
     if k == "map":
-        return "{%s}" % ", ".join("%s: %s" % (sub(a, PREC["assign"]), sub(b, PREC["assign"])) for a, b in e["kvs"]), PREC["primary"]
+        kv = e["kvs"]       # flat: k1, v1, k2, v2, ...
+        return "{%s}" % ", ".join("%s: %s" % (sub(kv[i], PREC["assign"]), sub(kv[i + 1], PREC["assign"])) for i in range(0, len(kv), 2)), PREC["primary"]
     if k == "idx":
         return "%s[%s]" % (sub(e["o"], PREC["call"]), sub(e["i"], PREC["assign"])), PREC["call"]
     if k == "setidx":
